@@ -82,7 +82,22 @@ def label_jobs(deep):
 # target_iter on single-target (Ix1) datasets: see report (panics in DatasetIter::next, iter.rs:88)
 target_iter_ix1 = [job("c02.ops", secs=30, n=3, nf=2, nt=0, base=b, depth=1, opa=TARGET_IT, ti1=1) for b in (0, 1)]
 
-quick = ops_depth1(8) + split_sweeps(8) + compositions(5, 2) + compositions(3, 3) + rng_jobs(False) + label_jobs(False) + target_iter_ix1
-thorough = ops_depth1(12) + split_sweeps(12) + compositions(5, 2, seeds=(1, 2, 3)) + compositions(4, 3) + rng_jobs(True) + label_jobs(True) + target_iter_ix1
+
+def offset_jobs(nmax):
+    # owned arrays that carry an offset into their backing vector (an owned array after slice_move /
+    # slice_axis_inplace): every operation, and the owned split over the whole ratio table
+    js = []
+    for n in range(1, nmax + 1):
+        for nt in (0, 2):
+            i = n + nt
+            js.append(job("c02.ops", secs=60, n=n, nf=1 + n % 3, nt=nt, base=0, off=1, w=i % 2, names=(i // 2) % 2, depth=1, rn=(1, 3, 2)[i % 3], rd=(2, 10, 3)[i % 3], seed=i, bs=n, bf=1))
+            js.append(job("c02.ops", secs=60, n=n, nf=1 + n % 2, nt=nt, base=0, off=1, w=1, names=1, depth=1, rsweep=1, opa=SPLIT_OWNED))
+    for n in (3, 4):
+        js.append(job("c02.ops", secs=120, n=n, nf=2, nt=0, base=0, off=1, w=1, names=1, depth=2, rn=1, rd=2, rn2=2, rd2=3, seed=n, bs=n, bf=2))
+    return js
+
+
+quick = offset_jobs(6) + ops_depth1(8) + split_sweeps(8) + compositions(5, 2) + compositions(3, 3) + rng_jobs(False) + label_jobs(False) + target_iter_ix1
+thorough = offset_jobs(10) + ops_depth1(12) + split_sweeps(12) + compositions(5, 2, seeds=(1, 2, 3)) + compositions(4, 3) + rng_jobs(True) + label_jobs(True) + target_iter_ix1
 
 REG = {"C02": {"quick": quick, "thorough": thorough}}
